@@ -112,7 +112,7 @@ func cmdFn(repo string, names []string, verbose bool, timeout int) int {
 					recvNowPointer[name] = true
 					continue
 				}
-				if paramsAdded(want, sigKey(fn)) {
+				if paramsAdded(want, sigKey(fn)) || paramsKeptByName(fn, pinnedParams[name], want) {
 					continue
 				}
 				specs.Void[name] = true
